@@ -121,19 +121,8 @@ let () =
              add (Printf.sprintf "line statistics do not conserve lines: %d + added %d - removed %d <> %d" ca (int_of_sx x) (int_of_sx y) cb)
        | _ -> ());
       if !fails <> [] then begin
-        (* the signature of the known finding about WhitespaceIgnore: the script is fine, and each count is
-           CountLines minus one exactly for the blobs whose last line is non-empty and all spaces *)
-        let d x = if last_blank x then 1 else 0 in
-        let osa = (match field_opt "sa" obs with Some x -> zs_of_sx (List.hd (args x)) | None -> a)
-        and osb = (match field_opt "sb" obs with Some x -> zs_of_sx (List.hd (args x)) | None -> b) in
-        let f9 = ws && lines_script_ok (split_lines osa) (split_lines osb) ds && (last_blank a || last_blank b)
-                 && gcla = string_of_int (gold + d a) && gclb = string_of_int (gnew + d b)
-                 && gburn = (if last_blank a then "src" else "ok") in
         let runs = List.length ds_i in
         let shown = if runs <= 40 then String.concat " " (List.map (fun (o, n) -> o ^ string_of_int n) ds_i) else Printf.sprintf "%d runs" runs in
-        if f9 then
-          propfail id (Printf.sprintf "WhitespaceIgnore drops a last line made of spaces only: %s [diff %s]" (String.concat "; " (List.rev !fails)) shown)
-        else
-          propfail id (Printf.sprintf "%s [ws=%b diff %s]" (String.concat "; " (List.rev !fails)) ws shown)
+        propfail id (Printf.sprintf "%s [ws=%b diff %s]" (String.concat "; " (List.rev !fails)) ws shown)
       end
     end)
